@@ -303,9 +303,10 @@ func (f *FieldCopyToGenerator) genListOrMap() *j.Statement {
 					j.Id("Null"):     j.True(),
 				}),
 			).Else().Block(
-				j.If(j.Id("c.Elems").Op("==").Nil()).Block(
-					j.Id("c.Elems").Op("=").Add(mk),
-				),
+				// The existing elements are never reused: every element is rebuilt from the source below.
+				// Starting from a fresh container makes the result follow the source when it shrinks,
+				// loses map keys or becomes nil.
+				j.Id("c.Elems").Op("=").Add(mk),
 			)
 
 			g.If(j.Id(fieldName)).Op("!=").Nil().BlockFunc(func(g *j.Group) {
